@@ -17,6 +17,7 @@
 (*  "mirror"  pos, mir, a, b            mir = Mirror(pos), a = -b          *)
 (*  "attack"  kind, sq, occ, att        att = SliderAttacks(kind, sq, occ) *)
 (*  "leaper"  kind, sq, att             knight / king tables               *)
+(*  "board"   obs, sum                  transient board: C12 invariants    *)
 (***************************************************************************)
 EXTENDS Notation, Json, IOUtils
 
@@ -104,6 +105,19 @@ CheckLeaper(r) ==
   LET want == IF r.kind = "N" THEN KnightT[r.sq] ELSE KingT[r.sq] IN
   SeqSet(r.att) = want \/ Bad("leaper attack set differs", [got |-> SeqSet(r.att), want |-> want])
 
+\* C12 on a board observed between a move and its undo inside generation / search (hook H5):
+\* representation invariant, and the redundant summaries agree with the squares
+CheckBoard(r) ==
+  LET o == r.obs  b == o.b  u == r.sum
+      pos == [b |-> b, turn |-> o.turn, rights |-> o.cr, ep |-> o.ep]
+  IN /\ (BoardInv(pos) \/ Bad("representation invariant broken on a transient board",
+                               [kings |-> KingsOK(b), pawns |-> PawnsOK(b), rights |-> RightsOK(b, o.cr), ep |-> EpShapeOK(b, o.ep)]))
+     /\ ((/\ \A c \in 1..12 : SeqSet(u.loc[c]) = { q \in Sq : b[q] = c } /\ Len(u.loc[c]) = Cardinality({ q \in Sq : b[q] = c })
+          /\ SeqSet(u.occw) = { q \in Sq : b[q] # 0 /\ Col(b[q]) = W }
+          /\ SeqSet(u.occb) = { q \in Sq : b[q] # 0 /\ Col(b[q]) = Bl }
+          /\ SeqSet(u.occ) = { q \in Sq : b[q] # 0 })
+         \/ Bad("occupancy summaries disagree with the squares on a transient board", 0))
+
 Ok == lvl = 2 =>
       LET r == Recs[i] IN
       CASE r.t = "moves" -> CheckMoves(r)
@@ -114,6 +128,7 @@ Ok == lvl = 2 =>
         [] r.t = "mirror" -> CheckMirror(r)
         [] r.t = "attack" -> CheckAttack(r)
         [] r.t = "leaper" -> CheckLeaper(r)
+        [] r.t = "board" -> CheckBoard(r)
         [] r.t = "panic" -> IF Consistent(PosOf(r.pos)) THEN Bad("code under test panicked", r.where)
                             ELSE Skip("inconsistent position")
         [] OTHER -> Bad("unknown record type", r.t)
